@@ -133,9 +133,13 @@ class Serializer:
             'circuit': [op for op in serialized_ops if op['gate'] != 'meas'],
         }
         if metadata is not None:
-            metadata.update(
-                self._serialize_measurements(op for op in serialized_ops if op['gate'] == 'meas')
-            )
+            # A copy: the caller's dict is left alone (it may be reused for the next job).
+            metadata = {
+                **metadata,
+                **self._serialize_measurements(
+                    op for op in serialized_ops if op['gate'] == 'meas'
+                ),
+            }
         else:
             metadata = self._serialize_measurements(
                 op for op in serialized_ops if op['gate'] == 'meas'
@@ -206,7 +210,7 @@ class Serializer:
                 "measurements": json.dumps(measurements),
                 "qubit_numbers": json.dumps(qubit_numbers),
             }
-            metadata.update(new_entries)
+            metadata = {**metadata, **new_entries}
         else:
             metadata = {
                 "measurements": json.dumps(measurements),
